@@ -330,6 +330,7 @@ func runC09(w *World, r *Report) {
 	copyCellChecks(w, r, "C09.copy-cells-consistent")
 
 	shareRule(w, r, "C09.task-published-after-its-result", "the executor records a node's panic in the task before it hands the task back to the run loop (one deferred function, or the hand-over registered first): the loop goroutine must not read err / output of a task that is still being written", 2, "C03", "C03.push-on-every-exit")
+	shareRule(w, r, "C09.concat-writes-a-map-of-its-own", "concatenating map chunks writes into a fresh map: copies of a stream hand every receiver the same chunk objects, and a receiver that concatenates into the first chunk rewrites what the other receivers — and later or concurrent runs replaying the same chunks — still read", 1, "C14", "C14.inputs-immutable")
 
 	r.Rule("C09.handler-state-own-run-only", "a callback handler is inherited through the context by every component of its kind that starts below the run it was given to — a compiled graph run by a tool, the agent's graph nested in a parent graph — so a handler method with state of its own (it stores into a receiver field, closes a channel or an object held there) does that only under a test of something read from the context it is handed: otherwise a nested run's start and end are taken for the run's own", 3)
 	{
